@@ -11,6 +11,7 @@ import (
 // extractAll: the remaining items (added as the model grows).
 func extractAll(repo string, o *out) {
 	extractToxics(repo, o)
+	extractLink(repo, o)
 }
 
 // emit writes  Definition name params : ty := body.  or, when body is empty, the last-known value.
